@@ -433,6 +433,9 @@ func GenConfig(t *rapid.T, o GenOpts) *Config {
 		case FormVoid:
 			if o.NamedVoid && r.Life == Scoped && rapid.IntRange(0, 2).Draw(t, "namedvoid") == 0 {
 				r.Name = fmt.Sprintf("init%d", i)
+				// a named initializer is a keyed service of type struct{}: others may depend on it
+				// (a field `struct{}` tagged with its name), which runs it - once - before them
+				g.take(Ident{T: TVoid, Key: r.Name}, r.Life, i)
 			}
 		}
 		if !ok {
